@@ -131,10 +131,8 @@ func (x *Explorer) Run(fn *ssa.Function) {
 				break
 			}
 			if d.kind == 'c' && d.more {
-				d.tried = append(d.tried, d.value)
-				d.value = 0
-				d.more = false
-				d.taken = false // marks "needs fresh choice"
+				d.value++
+				d.more = int(d.value) < len(d.tried)-1
 				break
 			}
 			if d.kind == 'p' && d.more {
@@ -437,47 +435,48 @@ func (x *Explorer) Concretize(t *Term, what string) int64 {
 	if x.curExec != nil && x.curExec.spec > 0 {
 		panic(&specAbort{})
 	}
-	var d *decision
 	if x.pos < len(x.script) {
-		d = &x.script[x.pos]
+		d := &x.script[x.pos]
 		if d.kind != 'c' {
 			panic("script desync (concretize)")
 		}
-		if d.taken { // value already chosen
-			x.pos++
-			x.addConstraint(x.B.Eq(t, x.B.Const(t.W, uint64(d.value))))
-			return d.value
-		}
-	} else {
-		x.script = append(x.script, decision{kind: 'c'})
-		d = &x.script[len(x.script)-1]
+		x.pos++
+		v := d.tried[d.value]
+		x.addConstraint(x.B.Eq(t, x.B.Const(t.W, uint64(v))))
+		return v
 	}
-	x.pos++
-	// need a fresh value different from d.tried
-	var extra []*Term
-	for _, tv := range d.tried {
-		ne := x.B.Not(x.B.Eq(t, x.B.Const(t.W, uint64(tv))))
-		extra = append(extra, ne)
-	}
+	// enumerate every feasible value now (one query per value plus a final unsat)
 	ctx := x.sliceVars(t.vars)
-	as := append(append([]*Term(nil), ctx...), extra...)
-	r, model := x.Solver.Check(as, []*Term{t})
-	if r == Unknown {
-		x.Unknowns++
-		panic(&abortPath{Kind: "unknown", Reason: "solver unknown while concretizing " + what})
+	var vals []int64
+	var extra []*Term
+	for {
+		as := append(append([]*Term(nil), ctx...), extra...)
+		r, model := x.Solver.Check(as, []*Term{t})
+		if r == Unknown {
+			x.Unknowns++
+			panic(&abortPath{Kind: "unknown", Reason: "solver unknown while concretizing " + what})
+		}
+		if r == Unsat {
+			break
+		}
+		v := sx(model[t.ID], t.W)
+		vals = append(vals, v)
+		extra = append(extra, x.B.Not(x.B.Eq(t, x.B.Const(t.W, uint64(v)))))
+		if len(vals) > 5000 {
+			panic(&abortPath{Kind: "unsupported", Reason: "more than 5000 feasible values while concretizing " + what})
+		}
 	}
-	if r == Unsat {
-		panic(&abortPath{Kind: "exhausted", Reason: "no more values for " + what})
+	if len(vals) == 0 {
+		panic(&abortPath{Kind: "infeasible", Reason: "no value for " + what})
 	}
-	v := sx(model[t.ID], t.W)
-	d.value = v
-	d.taken = true
-	d.more = true
+	sort.Slice(vals, func(i, j int) bool { return vals[i] < vals[j] })
+	x.script = append(x.script, decision{kind: 'c', tried: vals, value: 0, more: len(vals) > 1})
+	x.pos++
 	if x.ForkSites != nil {
-		x.ForkSites["concretize "+what+" "+x.siteOf()]++
+		x.ForkSites["concretize "+what+" "+x.siteOf()] += len(vals) - 1
 	}
-	x.addConstraint(x.B.Eq(t, x.B.Const(t.W, uint64(v))))
-	return v
+	x.addConstraint(x.B.Eq(t, x.B.Const(t.W, uint64(vals[0]))))
+	return vals[0]
 }
 
 func (x *Explorer) sliceVars(vs []int) []*Term {
